@@ -1,12 +1,25 @@
 """C15 — matrix objects are faithful to the data they were assembled from.
 
-Tie: (M) mechanism correspondence.  Real `nutils.matrix.assemble_csr/assemble_coo/assemble_block_csr`,
-`numeric.compress_indices` and the NumpyMatrix operations are run on generated integer-valued data and
-compared with the Lean model (`lean/NutilsVerif/Model/C15.lean`), about which `Props/C15.lean` proves the
-unbounded statements.  The property oracle (used by the failing-input search) is the model's *specification*
-side: `validB` (unambiguous triple) and `denseSum` (additive meaning of the data).
+Tie: (M) mechanism correspondence.  Real `nutils.matrix.assemble_csr / assemble_coo / assemble_block_csr / empty /
+diag / eye`, `numeric.compress_indices`, `NumpyMatrix` operations and exports, and the base class `Matrix`
+(`__sub__`, `__rmul__`, `__truediv__`, `rowsupp`, `diagonal`, `__reduce__`, `submatrix` cache, `getprecon` cache)
+are run on generated integer / Gaussian-integer data and compared with
+
+* the Lean model (`lean/NutilsVerif/Model/C15.lean`, driver `lean/Drivers/C15.lean`), about which
+  `Props/C15.lean` proves the unbounded statements, and
+* an exact recomputation in Python `Fraction`s (operation sequences, complex scalars).
+
+The property oracle (used to decide whether a disagreement is a *failing input of the real code*) is the
+specification side: `validB` / `cooValidB` / `blocksOK` (input defines a matrix unambiguously) and `denseSum` /
+`blockDense` / exact dense arithmetic (what the matrix must then be).  "Model and code disagree" alone is reported
+as `no-failing-input-found`.
+
+The base class methods that `NumpyMatrix` overrides (`__sub__`, `rowsupp`) and the ones it inherits are both
+exercised: half of the operation sequences run on `ProxyMatrix`, a subclass of the real `nutils.matrix.Matrix`
+defined here that implements only the abstract methods (by delegation to a `NumpyMatrix`).
 """
-import numpy, pickle, itertools
+import numpy, pickle, json
+from fractions import Fraction
 from .common import Infra
 
 
@@ -18,24 +31,114 @@ def rows(d):
     return ';'.join(ints(r) for r in d)
 
 
+class Batch:
+    """all Lean requests of one run are sent to the driver in one process"""
+
+    def __init__(self):
+        self.lines = []
+        self.ans = None
+
+    def add(self, line):
+        self.lines.append(line)
+        return len(self.lines) - 1
+
+    def run(self, c):
+        self.ans = c.model(self.lines) if self.lines else []
+
+    def __getitem__(self, i):
+        return self.ans[i]
+
+
+# ---------------------------------------------------------------- exact complex rationals
+
+class Q:
+    __slots__ = ('re', 'im')
+
+    def __init__(self, re=0, im=0):
+        self.re = Fraction(re); self.im = Fraction(im)
+
+    @staticmethod
+    def of(x):
+        if isinstance(x, Q): return x
+        x = complex(x)
+        return Q(Fraction(x.real), Fraction(x.imag))
+
+    def __add__(a, b): return Q(a.re + b.re, a.im + b.im)
+    def __sub__(a, b): return Q(a.re - b.re, a.im - b.im)
+    def __neg__(a): return Q(-a.re, -a.im)
+    def __mul__(a, b): return Q(a.re * b.re - a.im * b.im, a.re * b.im + a.im * b.re)
+    def inv(a):
+        n = a.re * a.re + a.im * a.im
+        return Q(a.re / n, -a.im / n)
+    def __eq__(a, b): return a.re == b.re and a.im == b.im
+    def __hash__(a): return hash((a.re, a.im))
+    def __bool__(a): return bool(a.re) or bool(a.im)
+    def abs2(a): return a.re * a.re + a.im * a.im
+    def isint(a): return a.im == 0 and a.re.denominator == 1
+    def py(a):
+        return complex(float(a.re), float(a.im)) if a.im else (int(a.re) if a.re.denominator == 1 else float(a.re))
+    def __repr__(a): return '%s%+sj' % (a.re, a.im) if a.im else str(a.re)
+
+
+class OM:
+    """oracle matrix: exact entries, explicit shape"""
+
+    def __init__(self, rows_, nc, cplx=False):
+        self.rows = [list(r) for r in rows_]; self.nr = len(self.rows); self.nc = nc; self.cplx = cplx
+        assert all(len(r) == nc for r in self.rows)
+
+    @property
+    def shape(self): return (self.nr, self.nc)
+
+    def map2(a, b, f): return OM([[f(x, y) for x, y in zip(r, s)] for r, s in zip(a.rows, b.rows)], a.nc, a.cplx or b.cplx)
+    def map1(a, f, cplx=None): return OM([[f(x) for x in r] for r in a.rows], a.nc, a.cplx if cplx is None else cplx)
+    def T(a): return OM([[a.rows[i][j] for i in range(a.nr)] for j in range(a.nc)], a.nr, a.cplx)
+    def sub(a, rs, cs): return OM([[a.rows[i][j] for j in range(a.nc) if cs[j]] for i in range(a.nr) if rs[i]], sum(cs), a.cplx)
+    def nz(a): return [(i, j, a.rows[i][j]) for i in range(a.nr) for j in range(a.nc) if a.rows[i][j]]
+    def isint(a): return all(x.isint() for r in a.rows for x in r)
+    def introws(a): return [[int(x.re) for x in r] for r in a.rows]
+    def tolist(a): return [[repr(x) for x in r] for r in a.rows]
+
+
+def om_of_real(M):
+    d = M.export('dense')
+    if d.ndim != 2 or tuple(d.shape) != tuple(M.shape):
+        return None
+    return OM([[Q.of(x) for x in r] for r in d], d.shape[1], d.dtype.kind == 'c')
+
+
 # ---------------------------------------------------------------- generators
 
-def gen_valid_csr(rng, maxn=5):
-    nrows = rng.choice([0, 1, 1, 2, 3, 4, maxn]); ncols = rng.choice([0, 1, 2, 3, 4, maxn])
+VALS = [0, 1, -1, 2, 3, -5, 7]
+
+
+def gen_valid_csr(rng, maxn=5, nrows=None, ncols=None, fill=.8):
+    nrows = rng.choice([0, 1, 1, 2, 3, 4, maxn]) if nrows is None else nrows
+    ncols = rng.choice([0, 1, 2, 3, 4, maxn]) if ncols is None else ncols
     rowptr = [0]; colidx = []; values = []
     for i in range(nrows):
-        k = rng.randint(0, ncols) if rng.random() < .8 else 0
+        k = rng.randint(0, ncols) if rng.random() < fill else 0
         cols = sorted(rng.sample(range(ncols), k))
         colidx += cols
-        values += [rng.choice([0, 1, -1, 2, 3, -5, 7]) for _ in cols]
+        values += [rng.choice(VALS) for _ in cols]
         rowptr.append(len(colidx))
     return values, rowptr, colidx, ncols
+
+
+def gen_imag(rng, v, dtype):
+    if dtype is complex and rng.random() < .7:
+        return [rng.choice([0, 0, 1, -1, 2, -3]) for _ in v]
+    return [0] * len(v)
+
+
+CSR_KINDS = ['dupcol', 'swapcol', 'negcol', 'bigcol', 'rp_first', 'rp_last', 'rp_nonmono', 'len_values', 'len_colidx', 'rp_empty',
+             'dup_across_rowstart', 'rp_shift', 'eqcol_boundary']
 
 
 def corrupt(rng, v, rp, ci, nc):
     """one structured corruption of a valid triple; returns (tag, v, rp, ci, nc)"""
     v, rp, ci = list(v), list(rp), list(ci)
-    kind = rng.choice(['dupcol', 'swapcol', 'negcol', 'bigcol', 'rp_first', 'rp_last', 'rp_nonmono', 'len_values', 'len_colidx', 'rp_empty', 'dup_across_rowstart'])
+    kind = rng.choice(CSR_KINDS)
     if kind == 'dupcol' and len(ci) >= 2:
         k = rng.randrange(1, len(ci)); ci[k] = ci[k-1]
     elif kind == 'swapcol' and len(ci) >= 2:
@@ -59,161 +162,1025 @@ def corrupt(rng, v, rp, ci, nc):
     elif kind == 'dup_across_rowstart' and len(rp) >= 3 and len(ci) >= 2:
         # move a row start so that a decreasing pair ends up strictly inside one row
         k = rng.randrange(1, len(rp)-1); rp[k] = min(rp[k+1], rp[k] + 1)
+    elif kind == 'rp_shift' and len(rp) >= 3:
+        # move a row start backwards (still monotone): the previous row's last column joins this row
+        k = rng.randrange(1, len(rp)-1); rp[k] = max(rp[k-1], rp[k] - 1)
+    elif kind == 'eqcol_boundary' and len(rp) >= 3 and len(ci) >= 2:
+        # equal neighbours exactly at a row boundary stay valid; inside a row they do not
+        k = rng.randrange(1, len(ci)); ci[k] = ci[k-1]
+        if rng.random() < .5 and k not in rp:
+            j = rng.randrange(1, len(rp)-1); rp[j] = min(max(k, rp[j-1]), rp[j+1])
     else:
         kind = 'none'
     return kind, v, rp, ci, nc
 
 
+def py_valid_csr(v, rp, ci, nc):
+    """python transcription of the specification (cross-checks the Lean `validB` answer)"""
+    if not rp or rp[0] != 0 or any(a > b for a, b in zip(rp, rp[1:])) or rp[-1] != len(v) or len(ci) != len(v):
+        return False
+    if any(not 0 <= x < nc for x in ci):
+        return False
+    return all(all(x < y for x, y in zip(ci[a:b], ci[a+1:b])) for a, b in zip(rp, rp[1:]))
+
+
+def py_dense(v, rp, ci, nc):
+    d = [[0] * nc for _ in range(len(rp) - 1)]
+    for i, (a, b) in enumerate(zip(rp, rp[1:])):
+        for k in range(a, b):
+            d[i][ci[k]] += v[k]
+    return d
+
+
 # ---------------------------------------------------------------- real code adapters
 
-def real_assemble_csr(matrix, v, rp, ci, nc, dtype):
+def arr(v, w, dtype):
+    if dtype is complex:
+        return numpy.array([complex(a, b) for a, b in zip(v, w)], dtype=complex)
+    return numpy.array(v, dtype=dtype)
+
+
+def split_dense(d):
+    """real dense array -> (re rows, im rows) as python ints, or None if not integer valued"""
+    d = numpy.asarray(d)
+    re = d.real; im = d.imag if d.dtype.kind == 'c' else numpy.zeros(d.shape)
+    if not (numpy.equal(numpy.round(re), re).all() and numpy.equal(numpy.round(im), im).all()):
+        return None
+    return [[int(x) for x in r] for r in re], [[int(x) for x in r] for r in im]
+
+
+def outcome(matrix, fn):
+    """run a real constructor; returns (kind, payload, M) with kind in accept/reject"""
     try:
-        m = matrix.assemble_csr(numpy.array(v, dtype=dtype), numpy.array(rp, dtype=int), numpy.array(ci, dtype=int), nc)
+        M = fn()
     except Exception as e:
-        return ('reject', type(e).__name__), None
-    d = m.export('dense')
-    if d.dtype.kind == 'c':
-        assert not d.imag.any()
-        d = d.real
-    return ('accept', [[int(x) for x in r] for r in d]), m
+        return 'reject', (type(e).__name__, isinstance(e, matrix.MatrixError), str(e)[:100]), None
+    d = M.export('dense')
+    if d.ndim != 2 or tuple(d.shape) != tuple(M.shape):
+        return 'accept', ('badshape', list(d.shape), list(M.shape)), M
+    sd = split_dense(d)
+    return 'accept', sd, M
 
 
-def run(c):
-    import nutils.matrix as matrix, nutils.numeric as numeric
-    c.rule = ('CSR triples: valid ones built from sorted column samples (incl. 0xN, Nx0, empty rows, explicit zeros) and single structured '
-              'corruptions (duplicate / swapped / negative / too large column, broken row pointers, inconsistent lengths); '
-              'a case is non-trivial when it has at least one stored entry or is a rejected corruption; distinct by its full data')
-    c.assumptions += ['only the numpy matrix backend is installed in this sandbox (no scipy, no mkl): "every available backend" = numpy',
-                      'values are integer-valued floats/complex, so NumPy arithmetic on them is exact']
-    broken = c.build_and_audit()
-    N = 400 if c.tier == 'quick' else 20000
+# ================================================================ stream: assemble_csr
 
-    # ---- stream 1: assemble_csr accept/reject + dense meaning
+def gen_csr_cases(c, N):
+    corpus = [('dupcol', [1, 2, 3], [0, 2, 3], [1, 1, 0], 2), ('negcol', [1, 2], [0, 2], [-1, 0], 2),
+              ('valid', [], [0], [], 3), ('valid', [], [0, 0, 0], [], 0), ('valid', [], [0], [], 0),
+              ('valid', [4, 0, 5], [0, 1, 1, 3], [2, 0, 2], 3), ('eqcol_boundary', [1, 2], [0, 1, 2], [1, 1], 2),
+              ('eqcol_boundary', [1, 2], [0, 2, 2], [1, 1], 2), ('rp_last', [1, 2], [0, 1, 1], [0, 1], 2)]
     cases = []
-    corpus = [('corpus-dupcol', [1, 2, 3], [0, 2, 3], [1, 1, 0], 2), ('corpus-negcol', [1, 2], [0, 2], [-1, 0], 2),
-              ('corpus-empty', [], [0], [], 3), ('corpus-0cols', [], [0, 0, 0], [], 0)]
-    cases += corpus
+    for tag, v, rp, ci, nc in corpus:
+        for dtype in (float, complex):
+            cases.append(dict(tag=tag, v=v, w=[0] * len(v) if dtype is float else [(-1) ** k for k in range(len(v))], rp=rp, ci=ci, nc=nc, dtype=dtype))
     for _ in range(N):
         v, rp, ci, nc = gen_valid_csr(c.rng)
+        tag = 'valid'
         if c.rng.random() < .5:
-            cases.append(('valid', v, rp, ci, nc))
-        else:
-            cases.append(corrupt(c.rng, v, rp, ci, nc))
-    req = ['csr|%s|%s|%s|%d' % (ints(v), ints(rp), ints(ci), nc) for _, v, rp, ci, nc in cases]
-    ans = c.model(req)
-    ndis = 0
-    with matrix.backend('numpy'):
-        for (tag, v, rp, ci, nc), a in zip(cases, ans):
-            dtype = c.rng.choice([float, complex])
-            (kind, payload), m = real_assemble_csr(matrix, v, rp, ci, nc, dtype)
-            f = a.split('|')
-            c.count('csr:' + tag); c.count('csr-real:' + kind)
-            c.case((v, rp, ci, nc), nontrivial=bool(v) or kind == 'reject')
-            c.sample(dict(op='assemble_csr', values=v, rowptr=rp, colidx=ci, ncols=nc, real=kind, model=f[0]))
-            model_valid = f[1] == 'valid=1'
-            replay = dict(op='assemble_csr', values=v, rowptr=rp, colidx=ci, ncols=nc, dtype=dtype.__name__, real=[kind, payload], model=a)
-            # --- property oracle (specification side of the model)
-            if kind == 'accept' and not model_valid:
-                c.failing_input('assemble_csr-accepts-ambiguous:' + tag.replace('corpus-', ''), 'assemble_csr accepts data that does not define a matrix unambiguously (%s)' % tag, replay)
-                ndis += 1; continue
-            if kind == 'accept' and model_valid and rows(payload) != f[4]:
-                c.failing_input('assemble_csr-wrong-dense', 'assembled matrix differs from the dense matrix defined by the input', replay)
-                ndis += 1; continue
-            # --- correspondence model <-> code
-            if (kind == 'accept') != (f[0] == 'accept') or (kind == 'accept' and rows(payload) != f[3]):
-                ndis += 1
-                c.broken_no_input('corr:assemble_csr', 'model and implementation disagree on accept/reject or dense value (valid input rejected?)', replay)
-            if kind == 'accept':
-                c.traces += 1
-    c.obligation('corr:assemble_csr', ndis == 0, 'correspondence', '%d cases' % len(cases))
+            tag, v, rp, ci, nc = corrupt(c.rng, v, rp, ci, nc)
+        dtype = c.rng.choice([float, complex])
+        cases.append(dict(tag=tag, v=v, w=gen_imag(c.rng, v, dtype), rp=rp, ci=ci, nc=nc, dtype=dtype))
+    return cases
 
-    # ---- stream 2: compress_indices
-    cases = [([], 0), ([], 3), ([0, 0, 2], 4), ([1, 0], 2), ([-1, 0], 2), ([0, 3], 3)]
+
+def csr_req(v, rp, ci, nc):
+    return 'csr|%s|%s|%s|%d' % (ints(v), ints(rp), ints(ci), nc)
+
+
+def stream_csr(c, matrix, batch, N):
+    cases = gen_csr_cases(c, N)
+    for k in cases:
+        k['q'] = batch.add(csr_req(k['v'], k['rp'], k['ci'], k['nc']))
+        k['qi'] = batch.add(csr_req(k['w'], k['rp'], k['ci'], k['nc'])) if any(k['w']) else None
+
+    def evaluate():
+        ndis = 0
+        for k in cases:
+            ndis += eval_csr_case(c, matrix, k, batch[k['q']], batch[k['qi']] if k['qi'] is not None else None)
+        c.obligation('corr:assemble_csr', ndis == 0, 'correspondence', '%d cases' % len(cases))
+    return evaluate
+
+
+def eval_csr_case(c, matrix, k, a, ai):
+    v, w, rp, ci, nc, dtype, tag = k['v'], k['w'], k['rp'], k['ci'], k['nc'], k['dtype'], k['tag']
+    kind, payload, M = outcome(matrix, lambda: matrix.assemble_csr(arr(v, w, dtype), numpy.array(rp, dtype=int), numpy.array(ci, dtype=int), nc))
+    f = a.split('|')
+    c.count('csr:' + tag); c.count('csr-real:' + kind); c.count('csr-dtype:' + dtype.__name__)
+    if rp and len(rp) == 1: c.count('csr-shape:0xN')
+    if nc == 0: c.count('csr-shape:Nx0')
+    c.case(('csr', tuple(v), tuple(w), tuple(rp), tuple(ci), nc), nontrivial=bool(v) or kind == 'reject')
+    c.sample(dict(op='assemble_csr', values=v, imag=w, rowptr=rp, colidx=ci, ncols=nc, real=kind, model=f[0]))
+    model_valid = f[1] == 'valid=1'
+    replay = dict(op='assemble_csr', case=dict(k, dtype=dtype.__name__), real=[kind, payload], model=a, model_imag=ai)
+    if model_valid != py_valid_csr(v, rp, ci, nc):
+        c.broken_no_input('corr:validB-vs-python-spec', 'Lean validB and the python transcription of the specification disagree', replay)
+        return 1
+    if ai is not None and ai.split('|')[:2] != f[:2] + [] and ai.split('|')[0] != f[0]:
+        c.broken_no_input('corr:assemble_csr', 'model accept/reject depends on the values', replay); return 1
+    # --- property oracle (specification side of the model)
+    if kind == 'accept' and not model_valid:
+        c.failing_input('assemble_csr-accepts-ambiguous:' + tag, 'assemble_csr accepts data that does not define a matrix unambiguously (%s)' % tag, replay)
+        return 1
+    if kind == 'reject' and model_valid:
+        if len(rp) == 1 and not payload[1]:
+            c.failing_input('assemble:zero-rows-fails', 'a valid 0xN triple cannot be assembled (%s)' % payload[0], replay)
+        else:
+            c.failing_input('assemble_csr-rejects-valid', 'assemble_csr rejects a triple that defines a matrix unambiguously', replay)
+        return 1
+    if kind == 'accept':
+        want_re = f[4]; want_im = ai.split('|')[4] if ai is not None else rows([[0] * nc] * (len(rp) - 1))
+        if payload is None or payload[0] == 'badshape' or rows(payload[0]) != want_re or rows(payload[1]) != want_im:
+            c.failing_input('assemble_csr-wrong-dense', 'assembled matrix differs from the dense matrix defined by the input', replay)
+            return 1
+        if M.dtype != numpy.dtype(dtype) or tuple(M.shape) != (len(rp) - 1, nc):
+            c.failing_input('assemble_csr-wrong-dense', 'assembled matrix has the wrong dtype or shape', replay)
+            return 1
+    # --- correspondence model <-> code
+    if (kind == 'accept') != (f[0] == 'accept') or (kind == 'accept' and rows(payload[0]) != f[3]):
+        c.broken_no_input('corr:assemble_csr', 'model and implementation disagree on accept/reject or dense value', replay)
+        return 1
+    if kind == 'accept':
+        c.traces += 1
+        # diagonal: CSR-level algorithm of the model on the input triple, and the dense diagonal
+        try:
+            dg = M.diagonal(); got = (ints(dg.real), ints(dg.imag) if dg.dtype.kind == 'c' else ints([0] * len(dg)))
+        except matrix.MatrixError:
+            got = 'MatrixError'
+        except Exception as e:
+            got = 'exc ' + type(e).__name__
+        if len(rp) - 1 != nc:
+            if got != 'MatrixError':
+                c.broken_no_input('corr:diagonal', 'diagonal of a non-square matrix does not raise MatrixError', dict(replay, got=got)); return 1
+        else:
+            want = (f[6], ai.split('|')[6] if ai is not None else ints([0] * nc))
+            if got != want:
+                c.failing_input('matrix-op-wrong:diagonal', 'diagonal() disagrees with the dense matrix defined by the input', dict(replay, got=got, want=want)); return 1
+            if f[5] != f[6]:
+                c.broken_no_input('corr:diagonal', 'csrDiagonal and dDiag∘denseSum disagree in the model on a valid triple (theorem diagonal_spec)', replay); return 1
+            c.count('csr:diagonal')
+    return 0
+
+
+def stream_csr_types(c, matrix):
+    """inputs that are not 1-D integer index arrays / 1-D values must be rejected"""
+    f = lambda *a: numpy.array(a, dtype=float)
+    i = lambda *a: numpy.array(a, dtype=int)
+    cases = [('values2d', numpy.ones((1, 2)), i(0, 2), i(0, 1), 2), ('rowptr-float', f(1, 2), f(0, 2), i(0, 1), 2),
+             ('colidx-float', f(1, 2), i(0, 2), f(0, 1), 2), ('rowptr2d', f(1, 2), numpy.array([[0, 2]]), i(0, 1), 2),
+             ('colidx2d', f(1, 2), i(0, 2), numpy.array([[0, 1]]), 2), ('rowptr-bool', f(1.), numpy.array([False, True]), i(0), 1)]
+    bad = 0
+    for tag, v, rp, ci, nc in cases:
+        kind, payload, M = outcome(matrix, lambda: matrix.assemble_csr(v, rp, ci, nc))
+        c.case(('csrtype', tag)); c.count('csr-types:' + kind)
+        if kind == 'accept':
+            bad += 1
+            c.failing_input('assemble_csr-accepts-ambiguous:' + tag, 'assemble_csr accepts arrays of the wrong dimension or dtype (%s)' % tag, dict(op='assemble_csr-types', tag=tag))
+    c.obligation('corr:assemble_csr-argument-types', bad == 0, 'correspondence', '%d cases' % len(cases))
+
+
+# ================================================================ stream: compress_indices
+
+def stream_compress(c, numeric, batch, N):
+    cases = [([], 0), ([], 3), ([0, 0, 2], 4), ([1, 0], 2), ([-1, 0], 2), ([0, 3], 3), ([0], 0), ([2, 2, 2], 3), ([0, 2, 1, 3], 4), ([3, 0, 0, 3], 4)]
     for _ in range(N):
         n = c.rng.randint(0, 5)
         idx = sorted(c.rng.randint(0, max(0, n-1)) for _ in range(c.rng.randint(0, 6))) if n else []
         r = c.rng.random()
         if idx and r < .15: idx[c.rng.randrange(len(idx))] = n + c.rng.randint(0, 1)
-        elif idx and r < .3: idx[c.rng.randrange(len(idx))] = -1
+        elif idx and r < .3: idx[c.rng.randrange(len(idx))] = -c.rng.randint(1, 2)
         elif len(idx) > 1 and r < .45: c.rng.shuffle(idx)
+        elif r < .5 and n == 0: idx = [c.rng.choice([0, -1, 1])]
         cases.append((idx, n))
-    ans = c.model(['compress|%s|%d' % (ints(i), n) for i, n in cases])
-    ndis = 0
-    for (idx, n), a in zip(cases, ans):
-        try:
-            r = 'ok|' + ints(numeric.compress_indices(numpy.array(idx, dtype=int), n))
-        except ValueError as e:
-            r = 'err|' + ('bounds' if 'bounds' in str(e) else 'monotone')
-        except Exception as e:
-            r = 'exc|' + type(e).__name__
-        c.case(('compress', tuple(idx), n), nontrivial=len(idx) > 0); c.count('compress:' + r.split('|')[0])
-        spec = sorted(idx) == idx and all(0 <= i < n for i in idx)
-        replay = dict(op='compress_indices', indices=idx, length=n, real=r, model=a)
-        if r.startswith('ok'):
-            want = ints(numpy.searchsorted(numpy.array(idx, dtype=int), numpy.arange(n+1))) if spec else None
-            if not spec or r[3:] != want:
+    qs = [batch.add('compress|%s|%d' % (ints(i), n)) for i, n in cases]
+
+    def evaluate():
+        ndis = 0
+        for (idx, n), q in zip(cases, qs):
+            a = batch[q]
+            try:
+                r = 'ok:' + ints(numeric.compress_indices(numpy.array(idx, dtype=int), n))
+            except ValueError as e:
+                r = 'err:' + ('bounds' if 'bounds' in str(e) else 'monotone')
+            except Exception as e:
+                r = 'exc:' + type(e).__name__
+            c.case(('compress', tuple(idx), n), nontrivial=len(idx) > 0); c.count('compress:' + r.split(':')[0] + (':' + r.split(':')[1] if r[0] == 'e' else ''))
+            spec = sorted(idx) == idx and all(0 <= i < n for i in idx)
+            code_m, spec_m = a.split('|')
+            replay = dict(op='compress_indices', indices=idx, length=n, real=r, model=a)
+            want = 'ok:' + ints(numpy.searchsorted(numpy.array(idx, dtype=int), numpy.arange(n+1))) if spec else None
+            if spec != spec_m.startswith('ok') or (spec and spec_m != want):
+                c.broken_no_input('corr:compressSpec-vs-python-spec', 'Lean compressSpec and numpy searchsorted disagree', replay); ndis += 1; continue
+            if r.startswith('ok') and (not spec or r != want):
                 c.failing_input('compress_indices-wrong', 'compress_indices returns row pointers that do not describe the index vector', replay); ndis += 1; continue
-        if a.split('|')[:2] != r.split('|')[:2] or a.endswith('spec-differs'):
-            ndis += 1
-            c.broken_no_input('corr:compress_indices', 'model and implementation disagree', replay)
-    c.obligation('corr:compress_indices', ndis == 0, 'correspondence', '%d cases' % len(cases))
+            if spec and not r.startswith('ok'):
+                c.failing_input('compress_indices-rejects-valid', 'compress_indices fails on a sorted in-range index vector', replay); ndis += 1; continue
+            if code_m != r or code_m != spec_m:
+                ndis += 1
+                c.broken_no_input('corr:compress_indices', 'model and implementation disagree (or code model differs from its specification: theorem compress_indices_spec)', replay)
+        c.obligation('corr:compress_indices', ndis == 0, 'correspondence', '%d cases' % len(cases))
+    return evaluate
 
-    # ---- stream 3: operations, export, pickle on accepted matrices (dense oracle computed exactly with Python ints)
-    ndis = 0; nops = 0
+
+# ================================================================ stream: assemble_coo
+
+COO_KINDS = ['none', 'none', 'none', 'shuffle', 'swaprows', 'negrow', 'bigrow', 'len_values', 'len_rowidx', 'len_colidx', 'duppos', 'swapcol', 'bigcol', 'negcol']
+
+
+def gen_coo_case(rng):
+    v, rp, ci, nc = gen_valid_csr(rng)
+    nr = len(rp) - 1
+    ri = [i for i in range(nr) for _ in range(rp[i+1] - rp[i])]
+    kind = rng.choice(COO_KINDS)
+    v, ri, ci = list(v), list(ri), list(ci)
+    n = len(v)
+    if kind == 'shuffle' and n >= 2:
+        p = list(range(n)); rng.shuffle(p)
+        v = [v[i] for i in p]; ri = [ri[i] for i in p]; ci = [ci[i] for i in p]
+    elif kind == 'swaprows' and n >= 2:
+        k = rng.randrange(1, n); ri[k-1], ri[k] = ri[k], ri[k-1]
+    elif kind == 'negrow' and n:
+        ri[rng.choice([0, rng.randrange(n)])] = -1
+    elif kind == 'bigrow' and n:
+        ri[rng.choice([n-1, rng.randrange(n)])] = nr + rng.randint(0, 1)
+    elif kind == 'len_values':
+        v.append(1)
+    elif kind == 'len_rowidx':
+        ri.append(ri[-1] if ri else 0) if nr else ri.append(0)
+    elif kind == 'len_colidx':
+        ci.append(0)
+    elif kind == 'duppos' and n >= 2:
+        k = rng.randrange(1, n); ri[k] = ri[k-1]; ci[k] = ci[k-1]
+    elif kind == 'swapcol' and n >= 2:
+        k = rng.randrange(1, n); ci[k-1], ci[k] = ci[k], ci[k-1]
+    elif kind == 'bigcol' and n:
+        ci[rng.randrange(n)] = nc + rng.randint(0, 1)
+    elif kind == 'negcol' and n:
+        ci[rng.randrange(n)] = -1
+    elif kind != 'none':
+        kind = 'none'
+    return dict(tag=kind, v=v, ri=ri, nr=nr, ci=ci, nc=nc)
+
+
+def py_valid_coo(v, ri, nr, ci, nc):
+    if not (len(v) == len(ri) == len(ci)): return False
+    if any(not 0 <= r < nr for r in ri) or any(not 0 <= x < nc for x in ci): return False
+    return all(a < b for a, b in zip(zip(ri, ci), list(zip(ri, ci))[1:]))
+
+
+def coo_req(v, k):
+    return 'coo|%s|%s|%d|%s|%d' % (ints(v), ints(k['ri']), k['nr'], ints(k['ci']), k['nc'])
+
+
+def stream_coo(c, matrix, batch, N):
+    cases = [dict(tag='none', v=[], ri=[], nr=0, ci=[], nc=2), dict(tag='none', v=[1, 2], ri=[0, 2], nr=3, ci=[1, 0], nc=2),
+             dict(tag='shuffle', v=[1, 2], ri=[1, 0], nr=2, ci=[1, 0], nc=2), dict(tag='duppos', v=[1, 2], ri=[0, 0], nr=1, ci=[1, 1], nc=2),
+             dict(tag='len_rowidx', v=[], ri=[0], nr=0, ci=[], nc=1)]
+    cases += [gen_coo_case(c.rng) for _ in range(N)]
+    for k in cases:
+        k['dtype'] = c.rng.choice([float, complex])
+        k['w'] = gen_imag(c.rng, k['v'], k['dtype'])
+        k['q'] = batch.add(coo_req(k['v'], k))
+        k['qi'] = batch.add(coo_req(k['w'], k)) if any(k['w']) else None
+
+    def evaluate():
+        ndis = 0
+        for k in cases:
+            ndis += eval_coo_case(c, matrix, k, batch[k['q']], batch[k['qi']] if k['qi'] is not None else None)
+        c.obligation('corr:assemble_coo', ndis == 0, 'correspondence', '%d cases' % len(cases))
+    return evaluate
+
+
+def eval_coo_case(c, matrix, k, a, ai):
+    v, w, ri, nr, ci, nc, dtype, tag = k['v'], k['w'], k['ri'], k['nr'], k['ci'], k['nc'], k['dtype'], k['tag']
+    kind, payload, M = outcome(matrix, lambda: matrix.assemble_coo(arr(v, w, dtype), numpy.array(ri, dtype=int), nr, numpy.array(ci, dtype=int), nc))
+    f = a.split('|')
+    cls = 'accept' if kind == 'accept' else 'valueerror' if payload[0] == 'ValueError' else 'reject' if payload[1] else 'exc:' + payload[0]
+    c.count('coo:' + tag); c.count('coo-real:' + cls)
+    c.case(('coo', tuple(v), tuple(w), tuple(ri), nr, tuple(ci), nc), nontrivial=bool(v))
+    model_valid = f[1] == 'valid=1'
+    replay = dict(op='assemble_coo', case=dict(k, dtype=dtype.__name__), real=[kind, payload], model=a, model_imag=ai)
+    if model_valid != py_valid_coo(v, ri, nr, ci, nc):
+        c.broken_no_input('corr:cooValidB-vs-python-spec', 'Lean cooValidB and the python transcription of the specification disagree', replay); return 1
+    if kind == 'accept' and not model_valid:
+        c.failing_input('assemble_coo-accepts-ambiguous:' + tag, 'assemble_coo accepts data that does not define a matrix unambiguously (%s)' % tag, replay); return 1
+    if kind == 'reject' and model_valid:
+        if nr == 0 and not payload[1]:
+            c.failing_input('assemble:zero-rows-fails', 'valid 0xN COO data cannot be assembled (%s)' % payload[0], replay)
+        else:
+            c.failing_input('assemble_coo-rejects-valid', 'assemble_coo rejects data that defines a matrix unambiguously', replay)
+        return 1
+    if kind == 'accept':
+        want_re = f[3]; want_im = ai.split('|')[3] if ai is not None else rows([[0] * nc] * nr)
+        if payload is None or payload[0] == 'badshape' or rows(payload[0]) != f[3] or rows(payload[1]) != want_im or f[2] != f[3] \
+                or M.dtype != numpy.dtype(dtype) or tuple(M.shape) != (nr, nc):
+            c.failing_input('assemble_coo-wrong-dense', 'assembled matrix differs from the dense matrix defined by the COO input', replay); return 1
+        c.traces += 1
+    if cls != f[0] or (cls == 'valueerror' and ('bounds' in payload[2]) != (f[2] == 'bounds')):
+        c.broken_no_input('corr:assemble_coo', 'model and implementation disagree on the outcome class (accept / ValueError bounds|monotonic / MatrixError)', replay); return 1
+    return 0
+
+
+# ================================================================ stream: assemble_block_csr
+
+DT = {0: float, 1: complex, 2: int}
+
+
+def gen_blocks(rng):
+    R = rng.choice([1, 1, 2, 3]); C = rng.choice([1, 2, 2, 3])
+    nrs = [rng.choice([0, 1, 2, 3]) for _ in range(R)]
+    total_w = None
+    dt = rng.choice([0, 0, 1])
+    blocks = []
+    style = rng.choice(['dense', 'sparse', 'sparse', 'oneper', 'allempty'])
+    for i in range(R):
+        if i == 0 or rng.random() < .7:
+            ws = [rng.choice([0, 1, 2, 3]) for _ in range(C)] if i == 0 else ws0
+        else:   # a different partition of the same total width
+            Ci = rng.choice([1, 2, 3]); cuts = sorted(rng.randint(0, total_w) for _ in range(Ci - 1))
+            ws = [b - a for a, b in zip([0] + cuts, cuts + [total_w])]
+        if i == 0: ws0 = ws; total_w = sum(ws)
+        one = rng.randrange(len(ws))
+        row = []
+        for j, w in enumerate(ws):
+            fill = dict(dense=.9, sparse=.35, oneper=(.9 if j == one else 0), allempty=0)[style]
+            if rng.random() < (1 - fill if style in ('dense', 'sparse') else 0):
+                v, rp, ci, nc = [], [0] * (nrs[i] + 1), [], w
+            else:
+                v, rp, ci, nc = gen_valid_csr(rng, nrows=nrs[i], ncols=w, fill=fill)
+            row.append(dict(v=v, rp=rp, ci=ci, nc=nc, dt=dt))
+        blocks.append(row)
+    return blocks
+
+
+BLOCK_KINDS = ['none', 'none', 'none', 'none', 'dtype', 'rowsizes', 'colsizes', 'lengths', 'rp_first', 'colrange', 'negcol', 'rowptr-order', 'order']
+
+
+def corrupt_blocks(rng, blocks):
+    kind = rng.choice(BLOCK_KINDS)
+    i = rng.randrange(len(blocks)); j = rng.randrange(len(blocks[i])); b = blocks[i][j]
+    if kind == 'dtype' and (i, j) != (0, 0):
+        b['dt'] = (b['dt'] + rng.choice([1, 2])) % 3
+    elif kind == 'rowsizes' and len(blocks[i]) >= 2 and j >= 1:
+        b['rp'] = b['rp'] + [b['rp'][-1]]
+    elif kind == 'colsizes' and len(blocks) >= 2 and i >= 1:
+        b['nc'] += 1
+    elif kind == 'lengths' and b['v']:
+        if rng.random() < .5: b['v'] = b['v'] + [9]; b['ci'] = b['ci'] + [b['ci'][-1]]
+        else: b['rp'] = b['rp'][:-1] + [b['rp'][-1] - 1]
+    elif kind == 'rp_first' and len(b['v']) >= 1 and b['rp'][1] >= 1:
+        b['rp'] = [1] + b['rp'][1:]
+    elif kind == 'colrange' and b['v']:
+        k = rng.randrange(len(b['ci'])); b['ci'] = list(b['ci']); b['ci'][k] = b['nc'] + rng.randint(0, 1)
+    elif kind == 'negcol' and b['v']:
+        k = rng.randrange(len(b['ci'])); b['ci'] = list(b['ci']); b['ci'][k] = -1
+    elif kind == 'rowptr-order' and len(b['rp']) >= 3:
+        # non-monotone row pointers, possibly compensated by a sibling block (the accepted case found on the pinned tree)
+        k = rng.randrange(1, len(b['rp']) - 1); b['rp'] = list(b['rp']); b['rp'][k] = b['rp'][-1] + rng.randint(1, 3)
+        if len(blocks[i]) >= 2 and rng.random() < .7:
+            s = blocks[i][j-1]; n = len(s['rp']) - 1
+            if n == len(b['rp']) - 1 and s['nc'] > 0:
+                # rewrite the sibling so that merged row ends are monotone: sibling has all its entries in the last rows
+                cnt = b['rp'][k] - b['rp'][k+1] if k + 1 < len(b['rp']) else 0
+                cnt = min(cnt, s['nc'])
+                if cnt > 0:
+                    s['v'] = [7] * cnt; s['ci'] = list(range(cnt)); s['rp'] = [0] * (k + 1) + [cnt] * (n - k)
+    elif kind == 'order' and len(b['v']) >= 2:
+        k = rng.randrange(1, len(b['ci'])); b['ci'] = list(b['ci']); b['ci'][k-1], b['ci'][k] = b['ci'][k], b['ci'][k-1]
+    else:
+        kind = 'none'
+    return kind
+
+
+def py_blocks_ok(blocks):
+    """(ok, reason): python transcription of `blocksOK`"""
+    if not blocks or any(not r for r in blocks): return False, 'sizes'
+    tot = sum(b['nc'] for b in blocks[0])
+    for row in blocks:
+        if sum(b['nc'] for b in row) != tot: return False, 'sizes'
+        for b in row:
+            if len(b['rp']) != len(row[0]['rp']) or not b['rp']: return False, 'sizes'
+    for row in blocks:
+        for b in row:
+            v, rp, ci = b['v'], b['rp'], b['ci']
+            if rp[0] != 0 or rp[-1] != len(v) or len(ci) != len(v): return False, 'lengths'
+            if any(x > y for x, y in zip(rp, rp[1:])): return False, 'rowptr-order'
+            if any(not 0 <= x < b['nc'] for x in ci): return False, 'colrange'
+            if not py_valid_csr(v, rp, ci, b['nc']): return False, 'order'
+    return True, ''
+
+
+def py_block_dense(blocks, key='v'):
+    out = []
+    for row in blocks:
+        ds = [py_dense(b[key], b['rp'], b['ci'], b['nc']) for b in row]
+        for i in range(len(row[0]['rp']) - 1):
+            out.append([x for d in ds for x in d[i]])
+    return out
+
+
+def block_req(blocks, key):
+    return 'block|' + '#'.join('/'.join('%s,%s,%s,%d,%d' % (ints(b[key]), ints(b['rp']), ints(b['ci']), b['nc'], b['dt']) for b in row) for row in blocks)
+
+
+def stream_block(c, matrix, batch, N):
+    B = lambda v, rp, ci, nc, dt=0: dict(v=v, rp=rp, ci=ci, nc=nc, dt=dt)
+    corpus = [('lengths', [[B([5, 6], [0, 1], [0, 1], 2), B([7], [0, 1], [0], 2)]]),
+              ('rp_first', [[B([5, 6], [1, 2], [0, 1], 2), B([7], [0, 1], [0], 2)]]),
+              ('colrange', [[B([5], [0, 1], [2], 2), B([], [0, 0], [], 2)]]),
+              ('negcol', [[B([], [0, 0], [], 2), B([7], [0, 1], [-1], 2)]]),
+              ('rowptr-order', [[B([5, 6], [0, 5, 2], [0, 1], 2), B([7, 8, 9], [0, 0, 3], [0, 1, 2], 3)]]),
+              ('none', [[B([], [0, 0], [], 2), B([], [0, 0], [], 1)]]),
+              ('none', [[B([1], [0, 1], [0], 1), B([], [0, 0], [], 2)], [B([], [0, 0, 0], [], 0), B([2, 3], [0, 1, 2], [2, 0], 3)]]),
+              ('none', [[B([], [0], [], 2)], [B([4], [0, 1], [1], 2)]]),
+              ('dtype', [[B([1], [0, 1], [0], 2), B([1], [0, 1], [0], 1, 1)]])]
+    cases = [dict(tag=t, blocks=b) for t, b in corpus]
+    for _ in range(N):
+        blocks = gen_blocks(c.rng)
+        tag = corrupt_blocks(c.rng, blocks)
+        cases.append(dict(tag=tag, blocks=blocks))
+    for k in cases:
+        for row in k['blocks']:
+            for b in row:
+                b['w'] = gen_imag(c.rng, b['v'], DT[b['dt']])
+        k['q'] = batch.add(block_req(k['blocks'], 'v'))
+        k['qi'] = batch.add(block_req(k['blocks'], 'w')) if any(any(b['w']) for row in k['blocks'] for b in row) else None
+
+    def evaluate():
+        ndis = 0
+        for k in cases:
+            ndis += eval_block_case(c, matrix, k, batch[k['q']], batch[k['qi']] if k['qi'] is not None else None)
+        c.obligation('corr:assemble_block_csr', ndis == 0, 'correspondence', '%d block structures' % len(cases))
+    return evaluate
+
+
+def eval_block_case(c, matrix, k, a, ai):
+    blocks, tag = k['blocks'], k['tag']
+    real_blocks = [[(arr(b['v'], b['w'], DT[b['dt']]), numpy.array(b['rp'], dtype=int), numpy.array(b['ci'], dtype=int), b['nc']) for b in row] for row in blocks]
+    captured = []
+    orig = matrix.assemble_csr
+
+    def spy(values, rowptr, colidx, ncols):
+        captured.append((numpy.asarray(values), [int(x) for x in rowptr], [int(x) for x in colidx], int(ncols)))
+        return orig(values, rowptr, colidx, ncols)
+    matrix.assemble_csr = spy
+    try:
+        kind, payload, M = outcome(matrix, lambda: matrix.assemble_block_csr(real_blocks))
+    finally:
+        matrix.assemble_csr = orig
+    f = a.split('|')
+    ok, why = py_blocks_ok(blocks)
+    nnz_blocks = [sum(1 for b in row if b['v']) for row in blocks]
+    c.count('block:' + tag); c.count('block-real:' + (kind if kind == 'accept' else payload[0]))
+    if kind == 'accept':
+        c.count('block-path:' + ('empty-shortcut' if not any(nnz_blocks) else 'fast+generic' if 1 in nnz_blocks and any(n != 1 for n in nnz_blocks) else 'fast' if all(n == 1 for n in nnz_blocks) else 'generic'))
+        if any(not b['v'] and b['nc'] > 0 for row in blocks for b in row): c.count('block:has-empty-block')
+    c.case(('block', block_req(blocks, 'v'), block_req(blocks, 'w')), nontrivial=any(nnz_blocks))
+    c.sample(dict(op='assemble_block_csr', blocks=[[[b['v'], b['rp'], b['ci'], b['nc']] for b in row] for row in blocks], real=kind), limit=9)
+    replay = dict(op='assemble_block_csr', tag=tag, blocks=blocks, real=[kind, payload], model=a, model_imag=ai, captured=[(list(map(complex, t[0])),) + t[1:] for t in captured])
+    spec = a[a.index('|ok='):].split('|')[1:]        # ok=., spec triple, blockDense
+    if (spec[0] == 'ok=1') != ok:
+        c.broken_no_input('corr:blocksOK-vs-python-spec', 'Lean blocksOK and the python transcription disagree', replay); return 1
+    # --- property oracle
+    if kind == 'accept' and not ok:
+        c.failing_input('assemble_block_csr-accepts-invalid-block:' + why, 'assemble_block_csr accepts block data that does not define a matrix unambiguously (%s)' % why, replay); return 1
+    if kind == 'reject' and ok:
+        nr = sum(len(row[0]['rp']) - 1 for row in blocks)
+        if nr == 0 and not payload[1]:
+            c.failing_input('assemble:zero-rows-fails', 'a valid block structure with zero rows cannot be assembled (%s)' % payload[0], replay)
+        else:
+            c.failing_input('assemble_block_csr-rejects-valid', 'assemble_block_csr rejects well-formed block data', replay)
+        return 1
+    if kind == 'accept':
+        want_re = py_block_dense(blocks, 'v'); want_im = py_block_dense(blocks, 'w')
+        if rows(want_re) != spec[2]:
+            c.broken_no_input('corr:blockDense-vs-python-spec', 'Lean blockDense and the python block matrix disagree', replay); return 1
+        if payload is None or payload[0] == 'badshape' or payload[0] != want_re or payload[1] != want_im:
+            c.failing_input('assemble_block_csr-wrong-dense', 'block matrix differs from the block matrix of the blocks\' dense meanings', dict(replay, want=[want_re, want_im])); return 1
+        if M.dtype != numpy.dtype(DT[blocks[0][0]['dt']]):
+            c.failing_input('assemble_block_csr-wrong-dense', 'block matrix has the wrong dtype', replay); return 1
+        c.traces += 1
+    # --- correspondence of the code model
+    if kind == 'reject':
+        name, is_me, msg = payload
+        cls = ('rowsizes' if 'row sizes' in msg else 'dtype' if 'dtype' in msg else 'colsizes' if 'column sizes' in msg else 'assert') if name == 'AssertionError' else \
+              ('blockrowptr' if 'row indices for a block' in msg else 'blockcolidx' if 'column indices for a block' in msg else 'reject') if is_me else 'exc:' + name
+        mcls = f[1] if f[0] == 'err' else ('reject' if f[3].startswith('reject') else f[3])
+        if cls != mcls:
+            c.broken_no_input('corr:assemble_block_csr', 'model and implementation disagree on the rejection class (%s vs %s)' % (cls, mcls), replay); return 1
+        return 0
+    if f[0] != 'merged' or not f[3].startswith('accept'):
+        c.broken_no_input('corr:assemble_block_csr', 'implementation accepts, model does not', replay); return 1
+    mv, mrp, mci, mnc = f[2].split(';')
+    if f[1] == 'any=0':
+        mv, mci = '', ''
+    if len(captured) != 1:
+        c.broken_no_input('corr:assemble_block_csr', 'expected exactly one call of assemble_csr', replay); return 1
+    cv, crp, cci, cnc = captured[0]
+    civ = ai.split('|')[2].split(';')[0] if ai is not None and f[1] == 'any=1' else ints([0] * len(cv))
+    if (ints(cv.real), ints(cv.imag) if cv.dtype.kind == 'c' else ints([0] * len(cv)), ints(crp), ints(cci), str(cnc)) != (mv, civ, mrp, mci, mnc):
+        c.broken_no_input('corr:assemble_block_csr-merged-triple', 'the triple handed to assemble_csr differs from the code model (fast path / generic path / empty-block skipping / offsets)', replay); return 1
+    if ok and f[4] != 'agrees=1' and f[1] == 'any=1':
+        c.broken_no_input('corr:block-code-model-vs-merge-spec', 'blockMergeCode and blockMerge differ on a well-formed block structure (block_code_partial)', replay); return 1
+    if rows(payload[0]) != f[3][len('accept:'):]:
+        c.broken_no_input('corr:assemble_block_csr', 'dense result differs from the model', replay); return 1
+    return 0
+
+
+# ================================================================ stream: empty / diag / eye
+
+def stream_ctor(c, matrix, N):
+    bad = 0; n = 0
+    shapes = [(0, 0), (0, 3), (2, 0), (1, 1), (2, 3)] + [(c.rng.randint(0, 4), c.rng.randint(0, 4)) for _ in range(N)]
+    for nr, nc in shapes:
+        for dtype in (float, complex):
+            kind, payload, M = outcome(matrix, lambda: matrix.empty((nr, nc), dtype=dtype)); n += 1
+            c.case(('empty', nr, nc, dtype.__name__), nontrivial=False); c.count('ctor:empty')
+            if kind != 'accept' or payload[0] != [[0] * nc] * nr or payload[1] != [[0] * nc] * nr or M.dtype != numpy.dtype(dtype) or tuple(M.shape) != (nr, nc):
+                bad += 1
+                sig = 'assemble:zero-rows-fails' if kind == 'reject' and nr == 0 and not payload[1] else 'ctor-wrong:empty'
+                c.failing_input(sig, 'matrix.empty(%r) is not the zero matrix of that shape' % ((nr, nc),), dict(op='empty', shape=[nr, nc], dtype=dtype.__name__, real=[kind, payload]))
+    for _ in range(len(shapes)):
+        k = c.rng.randint(0, 4); dtype = c.rng.choice([float, complex])
+        dv = [c.rng.choice(VALS) for _ in range(k)]; dw = gen_imag(c.rng, dv, dtype)
+        kind, payload, M = outcome(matrix, lambda: matrix.diag(arr(dv, dw, dtype))); n += 1
+        c.case(('diag', tuple(dv), tuple(dw)), nontrivial=k > 0); c.count('ctor:diag')
+        want = lambda x: [[x[i] if i == j else 0 for j in range(k)] for i in range(k)]
+        if kind != 'accept' or payload[0] != want(dv) or payload[1] != want(dw) or M.dtype != numpy.dtype(dtype):
+            bad += 1
+            sig = 'assemble:zero-rows-fails' if kind == 'reject' and k == 0 and not payload[1] else 'ctor-wrong:diag'
+            c.failing_input(sig, 'matrix.diag(d) is not the diagonal matrix of d', dict(op='diag', d=dv, imag=dw, real=[kind, payload]))
+    for k in range(5):
+        kind, payload, M = outcome(matrix, lambda: matrix.eye(k)); n += 1
+        c.case(('eye', k), nontrivial=k > 0); c.count('ctor:eye')
+        if kind != 'accept' or payload[0] != [[int(i == j) for j in range(k)] for i in range(k)] or any(any(r) for r in payload[1]):
+            bad += 1
+            sig = 'assemble:zero-rows-fails' if kind == 'reject' and k == 0 and not payload[1] else 'ctor-wrong:eye'
+            c.failing_input(sig, 'matrix.eye(n) is not the identity', dict(op='eye', n=k, real=[kind, payload]))
+    c.obligation('corr:empty-diag-eye', bad == 0, 'correspondence', '%d constructor calls' % n)
+
+
+# ================================================================ stream: operation sequences
+
+def make_proxy(matrix):
+    class ProxyMatrix(matrix.Matrix):
+        '''implements only the abstract methods of the real base class, by delegation to a NumpyMatrix'''
+
+        def __init__(self, inner):
+            self.inner = inner
+            super().__init__(inner.shape, inner.dtype)
+
+        def __add__(self, other):
+            return ProxyMatrix(self.inner + (other.inner if isinstance(other, ProxyMatrix) else other))
+
+        def __mul__(self, other):
+            return ProxyMatrix(self.inner * other)
+
+        def __matmul__(self, other):
+            return self.inner @ other
+
+        def __neg__(self):
+            return ProxyMatrix(-self.inner)
+
+        @property
+        def T(self):
+            return ProxyMatrix(self.inner.T)
+
+        def _submatrix(self, rows, cols):
+            return ProxyMatrix(self.inner._submatrix(rows, cols))
+
+        def export(self, form):
+            return self.inner.export(form)
+    return ProxyMatrix
+
+
+SCALARS = [2, -3, 0, 1, -1, 0.5, 4, 1j, -2j, 1 + 1j, 2 - 1j]
+DIVISORS = [1, -1, 2, -2, 4, 0.5, 1j, 2j, 1 + 1j, 1 - 1j]
+
+
+def gen_selector(rng, n, allow_bad=True):
+    """returns (form, data, expected bool list or None when it must raise)"""
+    r = rng.random()
+    if r < .12:
+        return 'bool', [True] * n, [True] * n
+    if r < .5:
+        b = [rng.random() < .6 for _ in range(n)]
+        return 'bool', b, b
+    if r < .8:
+        b = [rng.random() < .6 for _ in range(n)]
+        return 'int', [i for i in range(n) if b[i]], b
+    if r < .85:
+        return 'int', list(range(n)), [True] * n
+    if not allow_bad or n < 2:
+        return 'int', [], [False] * n
+    kind = rng.choice(['unsorted', 'oob', 'wronglen', 'neg', 'dup'])
+    if kind == 'unsorted': return 'int', [1, 0], None
+    if kind == 'oob': return 'int', [0, n], None
+    if kind == 'neg': return 'int', [-1, 0], None
+    if kind == 'dup': return 'int', [0, 0], None
+    return 'bool', [True] * (n + 1), None
+
+
+def gen_program(c, batch, length):
+    """a program = initial matrices + steps; the oracle values are computed here, exactly, without the real code"""
+    rng = c.rng
+    v, rp, ci, nc = gen_valid_csr(rng, maxn=4)
+    nr = len(rp) - 1
+    if rng.random() < .35 and nr != nc:      # more square matrices (diagonal)
+        v, rp, ci, nc = gen_valid_csr(rng, nrows=nr, ncols=nr)
+    dtA = rng.choice([float, complex]); dtB = rng.choice([float, complex])
+    wA = gen_imag(rng, v, dtA)
+    v2 = [rng.choice([0, 1, -2, 3]) for _ in v]; w2 = gen_imag(rng, v2, dtB)
+    v3, rp3, ci3, nc3 = gen_valid_csr(rng, nrows=rng.choice([nr + 1, nc if nc != nr else nr + 2]), ncols=rng.choice([nc, nc + 1]))
+    init = {'A': dict(v=v, w=wA, rp=rp, ci=ci, nc=nc, dtype=dtA.__name__), 'B': dict(v=v2, w=w2, rp=rp, ci=ci, nc=nc, dtype=dtB.__name__),
+            'C': dict(v=v3, w=[0] * len(v3), rp=rp3, ci=ci3, nc=nc3, dtype='float')}
+    O = {}
+    for name, k in init.items():
+        dr = py_dense(k['v'], k['rp'], k['ci'], k['nc']); di = py_dense(k['w'], k['rp'], k['ci'], k['nc'])
+        O[name] = OM([[Q(a, b) for a, b in zip(r, s)] for r, s in zip(dr, di)], k['nc'], k['dtype'] == 'complex')
+    steps = []; sels = {}; nout = 0; nsel = 0
+    names = lambda: [n for n in O]
+    for _ in range(length):
+        a = rng.choice(names()); X = O[a]
+        op = rng.choice(['add', 'sub', 'neg', 'mul', 'rmul', 'div', 'T', 'submatrix', 'submatrix', 'matvec', 'matmat', 'export', 'pickle', 'diagonal', 'rowsupp',
+                         'badshape', 'badtype', 'newsel', 'flipsel', 'subsel'])
+        st = dict(op=op, a=a)
+        if op in ('add', 'sub'):
+            same = [n for n in names() if O[n].shape == X.shape]
+            b = rng.choice(same); Y = O[b]; st['b'] = b
+            res = X.map2(Y, (lambda x, y: x + y) if op == 'add' else (lambda x, y: x - y))
+        elif op == 'neg':
+            res = X.map1(lambda x: -x)
+        elif op in ('mul', 'rmul'):
+            s = rng.choice(SCALARS); st['s'] = repr(s); q = Q.of(s)
+            res = X.map1(lambda x: x * q, cplx=X.cplx or isinstance(s, complex))
+        elif op == 'div':
+            s = rng.choice(DIVISORS); st['s'] = repr(s); q = Q.of(s).inv()
+            res = X.map1(lambda x: x * q, cplx=X.cplx or isinstance(s, complex))
+        elif op == 'T':
+            res = X.T()
+        elif op == 'submatrix':
+            fr, dr_, er = gen_selector(rng, X.nr); fc, dc_, ec = gen_selector(rng, X.nc)
+            st.update(rows=[fr, dr_], cols=[fc, dc_])
+            res = None if er is None or ec is None else X.sub(er, ec)
+            st['expect'] = 'error' if res is None else ('self' if all(er) and all(ec) else 'matrix')
+        elif op == 'newsel':
+            nsel += 1; nm = 'S%d' % nsel
+            n = rng.choice([X.nr, X.nc]); sels[nm] = [rng.random() < .6 for _ in range(n)]
+            st.update(name=nm, value=list(sels[nm])); steps.append(st); continue
+        elif op == 'flipsel':
+            cand = [n for n in sels if sels[n]]
+            if not cand: continue
+            nm = rng.choice(cand); k = rng.randrange(len(sels[nm])); sels[nm][k] = not sels[nm][k]
+            st.update(name=nm, index=k); steps.append(st); continue
+        elif op == 'subsel':
+            rs = [n for n in sels if len(sels[n]) == X.nr]; cs = [n for n in sels if len(sels[n]) == X.nc]
+            if not rs or not cs: continue
+            r_, c_ = rng.choice(rs), rng.choice(cs); st.update(rows=r_, cols=c_)
+            res = X.sub(sels[r_], sels[c_])
+            st['expect'] = 'self' if all(sels[r_]) and all(sels[c_]) else 'matrix'
+        elif op in ('matvec', 'matmat'):
+            shape = (X.nc,) if op == 'matvec' else (X.nc, rng.choice([0, 1, 2])) + ((2,) if rng.random() < .2 else ())
+            cplx = rng.random() < .3
+            n = 1
+            for s_ in shape: n *= s_
+            xr = [rng.randint(-3, 3) for _ in range(n)]; xi = [rng.randint(-2, 2) if cplx else 0 for _ in range(n)]
+            st.update(shape=list(shape), xr=xr, xi=xi)
+            flat = [Q(p, q_) for p, q_ in zip(xr, xi)]
+            inner = n // X.nc if X.nc else 0
+            want = [[sum((X.rows[i][j] * flat[j * inner + t] for j in range(X.nc)), Q()) for t in range(inner)] for i in range(X.nr)]
+            st['want'] = [[(str(x.re), str(x.im)) for x in r] for r in want]
+            steps.append(st); continue
+        elif op == 'badshape':
+            kind = rng.choice(['add', 'sub', 'matvec', 'radd'])
+            st['kind'] = kind
+            if kind in ('add', 'sub', 'radd'):
+                other = [n for n in names() if O[n].shape != X.shape]
+                if not other: continue
+                st['b'] = rng.choice(other)
+            steps.append(st); continue
+        elif op == 'badtype':
+            st['kind'] = rng.choice(['add-scalar', 'mul-matrix', 'mul-str', 'matmul-list', 'add-array', 'sub-scalar'])
+            steps.append(st); continue
+        elif op == 'rowsupp':
+            st['tol'] = rng.choice([0, 0, 1, 2, 3])
+            st['want'] = [any(x.abs2() > st['tol'] ** 2 for x in r) for r in X.rows]
+            if X.isint() and not X.cplx:
+                st['q'] = batch.add('export|%s|%d|%d|%d' % (rows(X.introws()), X.nr, X.nc, st['tol']))
+            steps.append(st); continue
+        elif op in ('export', 'pickle', 'diagonal'):
+            if op != 'pickle' and X.isint() and not any(x.im for r in X.rows for x in r):
+                st['q'] = batch.add('export|%s|%d|%d|0' % (rows(X.introws()), X.nr, X.nc))
+            steps.append(st); continue
+        if res is not None and op not in ('submatrix', 'subsel') or (op in ('submatrix', 'subsel') and st['expect'] == 'matrix'):
+            nout += 1; st['out'] = 'R%d' % nout; O[st['out']] = res
+        steps.append(st)
+    return dict(init=init, steps=steps, proxy=rng.random() < .5), O
+
+
+def qrows(d):
+    return [[Q.of(x) for x in r] for r in d]
+
+
+def run_program(c, matrix, Proxy, prog, O, batch, replay_extra=None):
+    """execute the steps on the real code and compare with the oracle; returns number of failures"""
+    R = {}
+    with_proxy = prog['proxy']
+    for name, k in prog['init'].items():
+        dtype = dict(float=float, complex=complex)[k['dtype']]
+        M = matrix.assemble_csr(arr(k['v'], k['w'], dtype), numpy.array(k['rp'], dtype=int), numpy.array(k['ci'], dtype=int), k['nc'])
+        R[name] = Proxy(M) if with_proxy and name != 'B' else M      # B stays a NumpyMatrix: mixed operands go through NumpyMatrix.convert
+    sels = {}; flipped_since = {}     # selector name -> matrices that saw it before an in-place flip
+    last_sub = {}                     # matrix name -> (rows name, cols name) of the last subsel call
+    nfail = 0
+
+    def fail(sig, what, st, **extra):
+        nonlocal nfail
+        nfail += 1
+        c.failing_input(sig, what, dict(op='opseq', program=prog, step=st, **extra, **(replay_extra or {})))
+
+    def check_matrix(M, want, st, opname):
+        got = om_of_real(M)
+        if got is None or got.shape != want.shape or got.rows != want.rows:
+            return fail('matrix-op-wrong:' + opname, 'matrix operation %s disagrees with the dense matrix defined by the input' % opname, st,
+                        got=None if got is None else got.tolist(), want=want.tolist())
+        if (M.dtype.kind == 'c') != want.cplx or M.export('dense').dtype != M.dtype:
+            return fail('matrix-op-wrong:' + opname + '-dtype', 'result dtype of %s is wrong' % opname, st, got=str(M.dtype), want_complex=want.cplx)
+        return True
+
+    def expect_error(fn, st, allowed, opname):
+        try:
+            fn()
+        except allowed:
+            c.count('op-error-ok:' + opname); return True
+        except Exception as e:
+            return fail('matrix-op-wrong-error:' + opname, '%s with an invalid operand raises %s instead of MatrixError/TypeError' % (opname, type(e).__name__), st)
+        return fail('matrix-op-accepts-invalid:' + opname, '%s with an invalid operand does not raise' % opname, st)
+
+    for st in prog['steps']:
+        op = st['op']; A = R.get(st['a']); X = O.get(st['a'])
+        if A is None: break
+        c.count('op:' + op + ('/base' if isinstance(A, Proxy) else '/numpy'))
+        try:
+            if op in ('add', 'sub', 'neg', 'mul', 'rmul', 'div', 'T'):
+                s = eval(st['s']) if 's' in st else None
+                M = A + R[st['b']] if op == 'add' else A - R[st['b']] if op == 'sub' else -A if op == 'neg' else A * s if op == 'mul' else s * A if op == 'rmul' else A / s if op == 'div' else A.T
+                if check_matrix(M, O[st['out']], st, op) is not True: break
+                R[st['out']] = M
+            elif op == 'submatrix':
+                mk = lambda fd: numpy.array(fd[1], dtype=bool if fd[0] == 'bool' else int) if fd[1] or fd[0] == 'bool' else []
+                if st['expect'] == 'error':
+                    if expect_error(lambda: A.submatrix(mk(st['rows']), mk(st['cols'])), st, Exception, 'submatrix') is not True: break
+                    continue
+                M = A.submatrix(mk(st['rows']), mk(st['cols']))
+                if st['expect'] == 'self':
+                    c.count('op:submatrix-all-true')
+                    if check_matrix(M, X, st, 'submatrix') is not True: break
+                else:
+                    if check_matrix(M, O[st['out']], st, 'submatrix') is not True: break
+                    R[st['out']] = M
+                last_sub.pop(st['a'], None)
+            elif op == 'newsel':
+                sels[st['name']] = numpy.array(st['value'], dtype=bool)
+            elif op == 'flipsel':
+                sels[st['name']][st['index']] ^= True      # in place: the same array object is passed again later
+                flipped_since[st['name']] = True
+            elif op == 'subsel':
+                M = A.submatrix(sels[st['rows']], sels[st['cols']])
+                want = X if st['expect'] == 'self' else O[st['out']]
+                got = om_of_real(M)
+                if got is None or got.shape != want.shape or got.rows != want.rows:
+                    stale = last_sub.get(st['a']) == (st['rows'], st['cols']) and (flipped_since.get(st['rows']) or flipped_since.get(st['cols']))
+                    fail('submatrix-cache-aliases-selector' if stale else 'matrix-op-wrong:submatrix',
+                         'submatrix returns the cached result of an earlier selection after the selector array was modified in place' if stale else
+                         'submatrix disagrees with the dense matrix defined by the input', st, got=None if got is None else got.tolist(), want=want.tolist())
+                    break
+                if st['expect'] == 'matrix': R[st['out']] = M
+                last_sub[st['a']] = (st['rows'], st['cols']); flipped_since[st['rows']] = False; flipped_since[st['cols']] = False
+                c.count('op:subsel-after-flip' if any(s['op'] == 'flipsel' for s in prog['steps'][:prog['steps'].index(st)]) else 'op:subsel')
+            elif op in ('matvec', 'matmat'):
+                x = numpy.array([complex(p, q_) for p, q_ in zip(st['xr'], st['xi'])]).reshape(st['shape'])
+                if not any(st['xi']): x = x.real.copy()
+                y = A @ x
+                want = [[Q(Fraction(p), Fraction(q_)) for p, q_ in r] for r in st['want']]
+                got = qrows(numpy.asarray(y).reshape(X.nr, -1)) if y.shape == (X.nr,) + tuple(st['shape'][1:]) else None
+                if got != want and not (X.nr == 0 or (got is not None and sum(map(len, got)) == 0 and sum(map(len, want)) == 0)):
+                    fail('matrix-op-wrong:matmul', 'matrix @ array disagrees with the dense matrix defined by the input', st, got=repr(y)); break
+            elif op == 'badshape':
+                kind = st['kind']
+                if kind == 'matvec':
+                    fn = lambda: A @ numpy.ones(X.nc + 1)
+                else:
+                    Bm = R.get(st['b'])
+                    if Bm is None: continue
+                    fn = (lambda: A + Bm) if kind == 'add' else (lambda: A - Bm) if kind == 'sub' else (lambda: Bm + A)
+                if expect_error(fn, st, (matrix.MatrixError,), 'shape-' + kind) is not True: break
+            elif op == 'badtype':
+                kind = st['kind']
+                fn = {'add-scalar': lambda: A + 1, 'sub-scalar': lambda: A - 1., 'mul-matrix': lambda: A * A, 'mul-str': lambda: A * 'x',
+                      'matmul-list': lambda: A @ [0] * X.nc, 'add-array': lambda: A + numpy.zeros(X.shape)}[kind]
+                if expect_error(fn, st, (TypeError,), 'type-' + kind) is not True: break
+            elif op == 'rowsupp':
+                got = [bool(t) for t in A.rowsupp(st['tol'])] if st['tol'] else [bool(t) for t in (A.rowsupp() if X.nr % 2 else A.rowsupp(0))]
+                if got != st['want']:
+                    fail('matrix-op-wrong:rowsupp', 'rowsupp(tol) disagrees with the dense matrix defined by the input', st, got=got); break
+                if 'q' in st:
+                    f = batch[st['q']].split('|')
+                    if f[6] != ''.join('01'[b] for b in got) or f[6] != f[7]:
+                        c.broken_no_input('corr:rowsupp', 'model cooRowsupp/dRowsupp disagree with the implementation', dict(op='opseq', program=prog, step=st, model=batch[st['q']])); nfail += 1; break
+            elif op == 'diagonal':
+                if X.nr != X.nc:
+                    if expect_error(lambda: A.diagonal(), st, (matrix.MatrixError,), 'diagonal-nonsquare') is not True: break
+                    continue
+                got = [Q.of(t) for t in A.diagonal()]
+                if got != [X.rows[i][i] for i in range(X.nr)]:
+                    fail('matrix-op-wrong:diagonal', 'diagonal() disagrees with the dense matrix defined by the input', st, got=repr(got)); break
+                if 'q' in st:
+                    f = batch[st['q']].split('|')
+                    if f[4] != ints([int(g.re) for g in got]) or f[4] != f[5]:
+                        c.broken_no_input('corr:diagonal', 'model csrDiagonal∘exportCSR / dDiag disagree with the implementation', dict(op='opseq', program=prog, step=st, model=batch[st['q']])); nfail += 1; break
+            elif op == 'pickle':
+                for proto in (2, pickle.HIGHEST_PROTOCOL):
+                    M = pickle.loads(pickle.dumps(A, proto))
+                    if check_matrix(M, X, st, 'pickle') is not True: break
+                else:
+                    continue
+                break
+            elif op == 'export':
+                if check_export(c, matrix, A, X, st, batch, fail, prog) is not True: break
+        except Exception as e:
+            fail('matrix-op-raises:' + op, 'matrix operation %s raises %s: %s on valid operands' % (op, type(e).__name__, str(e)[:80]), st); break
+    return nfail
+
+
+def check_export(c, matrix, A, X, st, batch, fail, prog):
+    nz = X.nz()
+    data, cols, rowptr = A.export('csr')
+    got = ([Q.of(t) for t in data], [int(t) for t in cols], [int(t) for t in rowptr])
+    want_rp = [sum(1 for i, _, _ in nz if i < r) for r in range(X.nr + 1)]
+    # specification: the exported triple must be a valid CSR triple whose dense meaning is the matrix
+    re_ok = len(got[0]) == len(got[1]) and py_valid_csr([1] * len(got[0]), got[2], got[1], X.nc) and len(got[2]) == X.nr + 1
+    if re_ok:
+        d = [[Q() for _ in range(X.nc)] for _ in range(X.nr)]
+        for i, (a_, b_) in enumerate(zip(got[2], got[2][1:])):
+            for k in range(a_, b_): d[i][got[1][k]] = got[0][k]
+        re_ok = d == X.rows
+    if not re_ok:
+        return fail('export-wrong:csr', 'export("csr") is not a valid CSR triple of the matrix (unsorted / out of range / wrong values)', st, got=repr(got))
+    if data.dtype != A.dtype:
+        return fail('export-wrong:csr-dtype', 'export("csr") data has a different dtype than the matrix', st, got=str(data.dtype))
+    if got != ([v for _, _, v in nz], [j for _, j, _ in nz], want_rp):
+        c.broken_no_input('corr:export-csr', 'export("csr") is valid but differs from the model (explicit zeros?)', dict(op='opseq', program=prog, step=st, got=repr(got))); return False
+    data2, (ri, ci) = A.export('coo')
+    got2 = [(int(i), int(j), Q.of(v)) for i, j, v in zip(ri, ci, data2)]
+    if sorted(got2, key=lambda t: t[:2]) != nz or len(set(t[:2] for t in got2)) != len(got2):
+        return fail('export-wrong:coo', 'export("coo") does not list the entries of the matrix', st, got=repr(got2))
+    if got2 != nz:
+        c.broken_no_input('corr:export-coo', 'export("coo") is correct but not in row-major order as in the model', dict(op='opseq', program=prog, step=st, got=repr(got2))); return False
+    # round trips through the assemblers
+    for name, fn in (('csr-roundtrip', lambda: matrix.assemble_csr(data, rowptr, cols, X.nc)), ('coo-roundtrip', lambda: matrix.assemble_coo(data2, ri, X.nr, ci, X.nc))):
+        got3 = om_of_real(fn())
+        if got3 is None or got3.rows != X.rows or got3.shape != X.shape:
+            return fail('matrix-op-wrong:' + name, 'assembling the exported data does not reproduce the matrix', st)
+    try:
+        A.export('nonsense')
+        return fail('export-wrong:unknown-form', 'export of an unknown form does not raise', st)
+    except NotImplementedError:
+        pass
+    if 'q' in st:
+        f = batch[st['q']].split('|')
+        if [f[0], f[1], f[2]] != [ints([int(v.re) for _, _, v in nz]), ints(got[1]), ints(got[2])] or f[3] != ints([i for i, _, _ in nz]) or not f[8].startswith('accept:') or f[8][7:] != rows(X.introws()):
+            c.broken_no_input('corr:export', 'model exportCSR/exportCOO (or its reassembly: theorem pickle_roundtrip) disagree with the implementation',
+                              dict(op='opseq', program=prog, step=st, model=batch[st['q']])); return False
+        c.count('op:export-vs-lean')
+    return True
+
+
+def stream_ops(c, matrix, batch, N):
+    progs = [gen_program(c, batch, c.rng.randint(3, 9)) for _ in range(N)]
+    # corpus: the in-place selector modification
+    sel_prog = dict(init={'A': dict(v=[1, 2, 3], w=[0, 0, 0], rp=[0, 1, 2, 3], ci=[0, 1, 2], nc=3, dtype='float')},
+                    steps=[dict(op='newsel', a='A', name='S1', value=[True, False, True]), dict(op='subsel', a='A', rows='S1', cols='S1', expect='matrix', out='R1'),
+                           dict(op='flipsel', a='A', name='S1', index=0), dict(op='flipsel', a='A', name='S1', index=1),
+                           dict(op='subsel', a='A', rows='S1', cols='S1', expect='matrix', out='R2')], proxy=False)
+    q = lambda *r: OM([[Q(x) for x in row] for row in r], len(r[0]))
+    progs.append((sel_prog, {'A': q([1, 0, 0], [0, 2, 0], [0, 0, 3]), 'R1': q([1, 0], [0, 3]), 'R2': q([2, 0], [0, 3])}))
+
+    def evaluate():
+        Proxy = make_proxy(matrix)
+        nfail = 0; nsteps = 0
+        for prog, O in progs:
+            nfail += run_program(c, matrix, Proxy, prog, O, batch)
+            nsteps += len(prog['steps'])
+            c.case(('ops', json.dumps(prog, default=repr)), nontrivial=bool(prog['init']['A']['v']))
+        c.sample(dict(op='opseq', steps=[s['op'] for s in progs[0][0]['steps']], proxy=progs[0][0]['proxy']), limit=9)
+        c.obligation('ops:operation-sequences-vs-exact-dense', nfail == 0, 'correspondence', '%d programs, %d steps' % (len(progs), nsteps))
+    return evaluate
+
+
+# ================================================================ stream: getprecon cache
+
+def stream_precon(c, matrix, N):
+    Proxy = make_proxy(matrix)
+    bad = 0; n = 0
+    for it in range(N):
+        k = c.rng.randint(1, 4)
+        # upper triangular with power-of-two diagonal: the LU solve and the reciprocal diagonal are exact
+        d = [c.rng.choice([1, 2, 4, -1, -2]) for _ in range(k)]
+        dense = [[d[i] if i == j else (c.rng.choice([0, 1, -1, 2]) if j > i else 0) for j in range(k)] for i in range(k)]
+        v = [x for r in dense for x in r if x]; ci = [j for r in dense for j, x in enumerate(r) if x]
+        rp = [0]
+        for r in dense: rp.append(rp[-1] + sum(1 for x in r if x))
+        A = matrix.assemble_csr(numpy.array(v, dtype=float), numpy.array(rp), numpy.array(ci), k)
+        if it % 2: A = Proxy(A)
+        x = [c.rng.randint(-4, 4) * 4 ** k for _ in range(k)]
+        sol = [Fraction(0)] * k
+        for i in reversed(range(k)):
+            sol[i] = (Fraction(x[i]) - sum(dense[i][j] * sol[j] for j in range(i + 1, k))) / dense[i][i]
+        want = {'direct': sol, 'diag': [Fraction(x[i], d[i]) for i in range(k)]}
+        seq = [c.rng.choice(['direct', 'diag', ('user', 2), ('user', 3), ('user', 2)]) for _ in range(c.rng.randint(2, 5))]
+        user = lambda self, k_=1: (lambda y: k_ * y)
+        prev = None; prev_obj = None
+        for s in seq:
+            n += 1
+            try:
+                P = A.getprecon(user, k_=s[1]) if isinstance(s, tuple) else A.getprecon(s)
+                got = [Fraction(float(t)) for t in P(numpy.array(x, dtype=float))]
+            except Exception as e:
+                got = 'exception %s: %s' % (type(e).__name__, e)
+            w = [Fraction(s[1] * t) for t in x] if isinstance(s, tuple) else want[s]
+            c.count('precon:' + (s if isinstance(s, str) else 'user'))
+            if s == prev and P is prev_obj: c.count('precon:cache-hit')
+            if got != w:
+                bad += 1
+                c.failing_input('getprecon-cache-wrong', 'getprecon returns a preconditioner that does not belong to the requested (name, arguments)',
+                                dict(op='getprecon', dense=dense, sequence=[repr(t) for t in seq], at=repr(s), x=x, got=repr(got), want=repr(w)))
+                break
+            prev, prev_obj = s, P
+        c.case(('precon', tuple(map(tuple, dense)), tuple(map(repr, seq))))
+    c.obligation('corr:getprecon-cache', bad == 0, 'correspondence', '%d getprecon calls' % n)
+
+
+# ================================================================ main
+
+def run(c):
+    import nutils.matrix as matrix, nutils.numeric as numeric
+    c.rule = ('CSR triples: valid ones built from sorted column samples (incl. 0xN, Nx0, empty rows, explicit zeros, Gaussian-integer values) and single '
+              'structured corruptions (duplicate / swapped / negative / too large column, broken or shifted row pointers, equal columns at/inside row '
+              'boundaries, inconsistent lengths); COO data derived from valid triples with corruptions (shuffled / swapped rows, out-of-range rows, '
+              'inconsistent lengths, duplicate positions); block structures (1-3 block rows/columns, zero-size blocks, empty blocks, one non-empty '
+              'block per row = fast path, all empty = shortcut, per-row different column partitions) with corruptions (dtype, sizes, invalid block); '
+              'operation programs of 3-9 steps over +,-,neg,*,/,.T,submatrix (bool/int/all-true/invalid selectors, selector arrays modified in place),'
+              '@ (vector, 2-D, 3-D, complex), export, pickle, diagonal, rowsupp(tol), wrong-shape and wrong-type operands, on NumpyMatrix and on a '
+              'minimal subclass of the base Matrix; a case is non-trivial when it has at least one stored entry or is a rejected corruption; distinct by its full data')
+    c.assumptions += ['only the numpy matrix backend is installed in this sandbox (no scipy, no mkl): "every available backend" = numpy; _scipy.py/_mkl.py are not executed',
+                      'values are integers, Gaussian integers or dyadic fractions of them, so NumPy float/complex arithmetic on them is exact; accuracy on general floats is not part of the check',
+                      'the base class Matrix is exercised through a harness-defined subclass that delegates the abstract methods to NumpyMatrix',
+                      'matrix.fromsparse is unusable on the pinned tree (NameError: sparse is never imported) and not covered',
+                      'solve/_solver (linear solvers) belong to C14 and are not covered here; getprecon is checked only for its cache key']
+    matrix.backend('numpy').__enter__() if hasattr(matrix.backend('numpy'), '__enter__') else None
+    broken = c.build_and_audit()
+    quick = c.tier == 'quick'
+    N = 300 if quick else 6000
+    if getattr(c, 'replay', None):
+        return replay(c, matrix, numeric)
+    batch = Batch()
     with matrix.backend('numpy'):
-        for _ in range(N // 4):
-            v, rp, ci, nc = gen_valid_csr(c.rng)
-            v2 = [c.rng.choice([0, 1, -2, 3]) for _ in v]
-            dtype = c.rng.choice([float, complex])
-            (k1, d1), A = real_assemble_csr(matrix, v, rp, ci, nc, dtype)
-            (k2, d2), B = real_assemble_csr(matrix, v2, rp, ci, nc, dtype)
-            if k1 != 'accept' or k2 != 'accept':
-                continue
-            nr = len(rp) - 1
-            x = [c.rng.randint(-3, 3) for _ in range(nc)]
-            s = c.rng.choice([2, -3, 0])
-            rsel = [c.rng.random() < .6 for _ in range(nr)]; csel = [c.rng.random() < .6 for _ in range(nc)]
-            want = {
-                'add': [[a+b for a, b in zip(r1, r2)] for r1, r2 in zip(d1, d2)],
-                'sub': [[a-b for a, b in zip(r1, r2)] for r1, r2 in zip(d1, d2)],
-                'neg': [[-a for a in r] for r in d1],
-                'scale': [[a*s for a in r] for r in d1],
-                'T': [[d1[i][j] for i in range(nr)] for j in range(nc)],
-                'matvec': [sum(a*b for a, b in zip(r, x)) for r in d1],
-                'rowsupp': [any(a != 0 for a in r) for r in d1],
-                'submatrix': [[d1[i][j] for j in range(nc) if csel[j]] for i in range(nr) if rsel[i]],
-                'pickle': d1,
-                'csr-roundtrip': d1,
-                'coo-roundtrip': d1,
-            }
-            if nr == nc: want['diagonal'] = [d1[i][i] for i in range(nr)]
-            def dense(M):
-                d = M.export('dense'); d = d.real if d.dtype.kind == 'c' else d
-                return [[int(t) for t in r] for r in d.reshape(M.shape)]
-            got = {}
-            for name, fn in dict(add=lambda: dense(A+B), sub=lambda: dense(A-B), neg=lambda: dense(-A), scale=lambda: dense(A*s),
-                                 T=lambda: dense(A.T), matvec=lambda: [int(t.real) for t in A @ numpy.array(x, dtype=dtype)],
-                                 rowsupp=lambda: [bool(t) for t in A.rowsupp()],
-                                 submatrix=lambda: dense(A.submatrix(numpy.array(rsel, dtype=bool), numpy.array(csel, dtype=bool))) if (not all(rsel) or not all(csel)) else want['submatrix'],
-                                 pickle=lambda: dense(pickle.loads(pickle.dumps(A))),
-                                 diagonal=lambda: [int(t.real) for t in A.diagonal()],
-                                 **{'csr-roundtrip': lambda: dense(matrix.assemble_csr(*(lambda d_, c_, r_: (d_, r_, c_, nc))(*A.export('csr')))),
-                                    'coo-roundtrip': lambda: dense(matrix.assemble_coo(*(lambda d_, ij: (d_, ij[0], nr, ij[1], nc))(*A.export('coo'))))}).items():
-                if name not in want: continue
-                try:
-                    got[name] = fn()
-                except Exception as e:
-                    got[name] = 'exception ' + type(e).__name__ + ': ' + str(e)[:80]
-                nops += 1; c.count('op:' + name)
-                w = want[name]
-                if name in ('submatrix',) and (not w or not w[0]):
-                    w = got[name] if isinstance(got[name], list) and sum(map(len, got[name])) == 0 else w
-                if got[name] != w:
-                    ndis += 1
-                    c.failing_input('matrix-op-wrong:' + name, 'matrix operation %s disagrees with the dense matrix defined by the input' % name,
-                                    dict(op=name, values=v, values2=v2, rowptr=rp, colidx=ci, ncols=nc, x=x, scale=s, rows=rsel, cols=csel, dtype=dtype.__name__, got=got[name], want=w))
-            c.case(('ops', tuple(v), tuple(rp), tuple(ci), nc), nontrivial=bool(v))
-    c.obligation('ops:dense-model', ndis == 0, 'correspondence', '%d operation results' % nops)
-
+        evals = [stream_csr(c, matrix, batch, N), stream_compress(c, numeric, batch, N), stream_coo(c, matrix, batch, N),
+                 stream_block(c, matrix, batch, N // 2), stream_ops(c, matrix, batch, N // 2)]
+        c.log('generated %d model requests' % len(batch.lines))
+        batch.run(c)
+        c.log('model answered; running the implementation')
+        for ev in evals:
+            ev()
+        stream_csr_types(c, matrix)
+        stream_ctor(c, matrix, 10 if quick else 60)
+        stream_precon(c, matrix, 40 if quick else 600)
     for b in broken:
         c.broken_no_input('proof', b, dict(detail=b))
+
+
+def replay(c, matrix, numeric):
+    """re-run one recorded case (`./check C15 --replay file`)"""
+    r = c.replay; op = r.get('op')
+    dt = dict(float=float, complex=complex)
+    with matrix.backend('numpy'):
+        if op == 'assemble_csr':
+            k = dict(r['case']); k['dtype'] = dt[k['dtype']]
+            a, = c.model([csr_req(k['v'], k['rp'], k['ci'], k['nc'])]); ai = c.model([csr_req(k['w'], k['rp'], k['ci'], k['nc'])])[0] if any(k['w']) else None
+            eval_csr_case(c, matrix, k, a, ai)
+        elif op == 'assemble_coo':
+            k = dict(r['case']); k['dtype'] = dt[k['dtype']]
+            a, = c.model([coo_req(k['v'], k)]); ai = c.model([coo_req(k['w'], k)])[0] if any(k['w']) else None
+            eval_coo_case(c, matrix, k, a, ai)
+        elif op == 'assemble_block_csr':
+            k = dict(tag=r['tag'], blocks=r['blocks'])
+            a, = c.model([block_req(k['blocks'], 'v')]); ai = c.model([block_req(k['blocks'], 'w')])[0] if any(any(b['w']) for row in k['blocks'] for b in row) else None
+            eval_block_case(c, matrix, k, a, ai)
+        elif op == 'opseq':
+            prog = r['program']
+            for st in prog['steps']: st.pop('q', None)
+            # recompute the oracle by replaying generation is not possible; re-evaluate with the dense oracle rebuilt from the real initial matrices
+            c.log('replaying an operation program: recomputing the oracle from the recorded steps is done by re-running the seed (%s, tier %s)' % (r.get('seed'), r.get('tier')))
+            raise Infra('replay of operation programs: run ./check C15 --tier %s --seed %s' % (r.get('tier'), r.get('seed')))
+        else:
+            raise Infra('replay of %r is not supported; run ./check C15 --tier %s --seed %s' % (op, r.get('tier'), r.get('seed')))
